@@ -2,14 +2,17 @@ package simkit
 
 import (
 	"bytes"
+	"crypto/sha256"
 	"errors"
 	"fmt"
+	"hash"
 	"io"
 	"sort"
 	"sync"
 
 	"github.com/ipfs/go-cid"
 	"github.com/ipld/go-ipld-prime"
+	"github.com/ipld/go-ipld-prime/datamodel"
 	cidlink "github.com/ipld/go-ipld-prime/linking/cid"
 	"github.com/multiformats/go-multihash"
 )
@@ -38,7 +41,14 @@ type Store struct {
 	// ReadHook, if set, is called before every read (without the store's
 	// lock held): a point at which the scheduler can hold the reader.
 	ReadHook func(c cid.Cid)
+	// AppHash, if not zero, is a multihash code that only this
+	// application's link system knows (go-multihash's registry does not):
+	// SHA2-256 under a private-use code. Set before LinkSystem is called.
+	AppHash uint64
 }
+
+// AppOnlyHash is a multihash code from the private-use range.
+const AppOnlyHash = 0x300001
 
 func NewStore(r *Run, name string) *Store {
 	return &Store{r: r, Name: name, m: map[string][]byte{}}
@@ -48,6 +58,15 @@ var ErrStore = errors.New("simulated storage error")
 
 func (s *Store) LinkSystem() ipld.LinkSystem {
 	ls := cidlink.DefaultLinkSystem()
+	if app := s.AppHash; app != 0 {
+		inner := ls.HasherChooser
+		ls.HasherChooser = func(lp datamodel.LinkPrototype) (hash.Hash, error) {
+			if clp, ok := lp.(cidlink.LinkPrototype); ok && clp.MhType == app {
+				return sha256.New(), nil
+			}
+			return inner(lp)
+		}
+	}
 	ls.StorageReadOpener = func(_ ipld.LinkContext, l ipld.Link) (io.Reader, error) {
 		c := l.(cidlink.Link).Cid
 		if s.ReadHook != nil {
@@ -174,6 +193,10 @@ func (s *Store) Audit() error {
 		}
 		p := c.Prefix()
 		sum, err := multihash.Sum(b, p.MhType, p.MhLength)
+		if s.AppHash != 0 && p.MhType == s.AppHash {
+			d := sha256.Sum256(b)
+			sum, err = multihash.Encode(d[:], s.AppHash)
+		}
 		if err != nil {
 			return fmt.Errorf("store %s: cannot hash: %v", s.Name, err)
 		}
